@@ -4,6 +4,8 @@ from rules import shared
 from rulelib import walk, match_table, nonpanic, path_sig, event_strs, where, canon
 import obligations
 
+import witness
+
 EXPLANATION = ("Framing agreement between proto Datagram::write / write_size / read and the driver's Datagram::read / write (same header term, "
                "payload offset = len(quic) - len(payload), payload()/Deref slice from that one field); quarter-stream-id conversion on both "
                "sides; size contract max_datagram_size = quinn_max - header_size(session) with send_datagram handing header++payload to quinn "
@@ -157,3 +159,4 @@ def run(ctx):
     muts = [fn.path for fn in A.fn_list if fn.path.startswith("wtransport::datagram::Datagram::") and "&mut " in fn.raw.get("sig", "").split("->")[-1]]
     derefmut = [i for i in A.impls if i.get("trait", "").endswith("DerefMut") and i["self"] == "wtransport::datagram::Datagram"]
     ctx.check("C03-R6", "no &mut accessor", not muts and not derefmut, "Datagram exposes mutable access: %s %s" % (muts, derefmut), adt["at"]["sp"])
+    witness.run(ctx, "C03-R6", {"C03"})
